@@ -109,7 +109,7 @@ PROPS = {
     "C05": ring(quick=320, thorough=8000),
     "C06": ring(quick=320, thorough=8000),
     "C09": ring(quick=960, thorough=8000),
-    "C07": ring(level="fault_enumeration", quick=280, thorough=3500),
+    "C07": ring(level="fault_enumeration", quick=296, thorough=3700),
     "C08": ring(quick=240, thorough=6000),
     "C10": ring(quick=240, thorough=6000),
     "C14": ring(quick=240, thorough=6000),
